@@ -254,6 +254,32 @@ fn cli_area_pair(bin: &std::path::Path, case: &Case, r: &mut Rng, t: &mut Tally)
     let _ = std::fs::remove_dir_all(&dir);
 }
 
+fn big_aux_biomass_dhw(r: &mut Rng, like: &Case) -> Case {
+    use crate::spec::{Line, Spec};
+    let n = 12;
+    let dec = |r: &mut Rng, lo: u64, hi: u64| -> Vec<f32> { (0..n).map(|_| (lo * 100 + r.below((hi - lo) * 100)) as f32 / 100.0).collect() };
+    let b = dec(r, 2000, 6000);
+    let d = dec(r, 500, 1500);
+    let out: Vec<f32> = b.iter().map(|x| (x * 0.75 * 100.0).round() / 100.0).collect();
+    // the declared demand is a tenth below what the systems say they deliver (declared outputs are often gross figures):
+    // the two ways of attributing DHW demand to the biomass - by difference, or from its declared output - then differ
+    let dem: Vec<f32> = out.iter().zip(d.iter()).map(|(a, b)| ((a / 1.1 + b) * 100.0).round() / 100.0).collect();
+    let bio = *r.pick(&["BIOMASA", "BIOMASADENSIFICADA"]);
+    let lines = vec![
+        Line::Used { id: 5, srv: "ACS".into(), cr: bio.into(), v: b, comment: String::new() },
+        Line::Out { id: 5, srv: "ACS".into(), v: out, comment: String::new() },
+        Line::Aux { id: 5, v: dec(r, 300, 900), comment: String::new() },
+        Line::Used { id: 4, srv: "ACS".into(), cr: "RED1".into(), v: d, comment: String::new() },
+        Line::Aux { id: 4, v: dec(r, 100, 500), comment: String::new() },
+        Line::Used { id: 0, srv: "ILU".into(), cr: "ELECTRICIDAD".into(), v: dec(r, 50, 400), comment: String::new() },
+        Line::Need { srv: "ACS".into(), v: dem },
+    ];
+    let mut c = like.clone();
+    c.spec = Spec { n, meta: vec![], lines };
+    c.fac = crate::case::gen_loc(r);
+    c
+}
+
 pub fn run(ctx: &Ctx) -> Report {
     let total = ctx.cases(10_000, 400_000);
     let cli_every = if ctx.thorough() { 150 } else { 80 };
@@ -272,6 +298,13 @@ pub fn run(ctx: &Ctx) -> Report {
                 case = sc.case;
                 t.count("cases_from_dhw_scenarios");
             }
+        }
+        if r.chance(1, 50) {
+            // a biomass DHW plant with large auxiliaries on two DHW systems and no other DHW electricity: whether
+            // electricity counts as a DHW carrier hangs on a tolerance against an f32 residue of the auxiliary sums, which
+            // must stay relative when everything is scaled up (annual auxiliaries reach 2^23 kWh at c = 2^10)
+            case = big_aux_biomass_dhw(r, &case);
+            t.count("cases_from_big_auxiliary_dhw_plant");
         }
         check_case(ctx, &case, idx % cli_every == 0, t);
     });
